@@ -17,13 +17,13 @@ TEXT_POOLS = [
 
 ALL_KINDS = ['new', 'conv', 'apply', 'remove', 'clear', 'slice', 'index', 'clip', 'iter', 'add', 'iadd', 'join', 'pad',
              'fmt', 'render', 'case', 'assign', 'strip', 'rmfix', 'split', 'splitlines', 'partition', 'replace',
-             'expandtabs', 'fmatch', 'applymatch', 'find', 'query', 'simplify', 'roundtrip', 'setansi']
+             'expandtabs', 'fmatch', 'applymatch', 'find', 'query', 'simplify', 'roundtrip', 'setansi', 'itnext']
 
 BASE_WEIGHT = {
     'new': 6, 'conv': 4, 'apply': 10, 'remove': 6, 'clear': 1, 'slice': 7, 'index': 2, 'clip': 3, 'iter': 1, 'add': 6,
     'iadd': 5, 'join': 3, 'pad': 5, 'fmt': 3, 'render': 1, 'case': 2, 'assign': 2, 'strip': 3, 'rmfix': 2, 'split': 3,
     'splitlines': 1, 'partition': 2, 'replace': 4, 'expandtabs': 1, 'fmatch': 3, 'find': 2, 'query': 2, 'simplify': 2,
-    'roundtrip': 1, 'setansi': 1, 'applymatch': 1,
+    'roundtrip': 1, 'setansi': 1, 'applymatch': 1, 'itnext': 1,
 }
 
 GROUP_SHARING_SETS = [
@@ -228,9 +228,15 @@ class Gen:
                 a, b = b, a
         return a, b
 
-    def operand(self, world, recv_slot=None, allow_text=True, maxlen=None):
+    ESC_OPERANDS = ['x\x1b[1my', 'b\x1b[3', '1mc', '\x1b[31m', 'a\x1b[0mb', '\x1b[1;31mzz\x1b[m', '\x1b[4mu', 'm\x1b[', '[1mq',
+                    '\x1b[38;5;200mp\x1b[39m', '\x1b', 'w\x1b[2Jv', '\x1b[mr']
+
+    def operand(self, world, recv_slot=None, allow_text=True, maxlen=None, esc=False):
         r = self.rng
         maxlen = self.MAXLEN if maxlen is None else maxlen
+        if esc and r.random() < 0.06:
+            # a plain str that carries (pieces of) escape sequences: each operand is parsed on its own
+            return {'text': r.choice(self.ESC_OPERANDS)}
         if recv_slot is not None and r.random() < self.p_self and len(world.obs[recv_slot].text) <= maxlen:
             return {'slot': recv_slot}
         if allow_text and r.random() < 0.3:
@@ -401,18 +407,28 @@ class Gen:
             op['mutate'] = self.rng.choice([1, 2, 3])
         return op
 
+    def g_itnext(self, world):
+        # advance (or open) the iterator that stays open on a value; prefer one that is already open
+        n = len(world.vals)
+        open_slots = [i for i in range(n) if id(world.vals[i]) in world.iters and world.iters[id(world.vals[i])][0] is world.vals[i]]
+        if open_slots and self.rng.random() < 0.8:
+            s = self.rng.choice(open_slots)
+        else:
+            s = self.recv_slot(world)
+        return {'op': 'itnext', 'r': s, 'd': self.slot()}
+
     def g_add(self, world):
         s = self.recv_slot(world, maxlen=self.MAXLEN)
-        return {'op': 'add', 'r': s, 'o': self.operand(world, s), 'd': self.slot()}
+        return {'op': 'add', 'r': s, 'o': self.operand(world, s, esc=True), 'd': self.slot()}
 
     def g_iadd(self, world):
         s = self.recv_slot(world, maxlen=self.MAXLEN)
-        return {'op': 'iadd', 'r': s, 'o': self.operand(world, s), 'd': self.slot(), 'ip': self.ip()}
+        return {'op': 'iadd', 'r': s, 'o': self.operand(world, s, esc=True), 'd': self.slot(), 'ip': self.ip()}
 
     def g_join(self, world):
         r = self.rng
         k = r.choice([0, 1, 2, 2, 3, 3, 4])
-        xs = [self.operand(world, None, maxlen=24) for _ in range(k)]
+        xs = [self.operand(world, None, maxlen=24, esc=True) for _ in range(k)]
         if k >= 2 and r.random() < self.p_self + 0.1:
             xs[r.randrange(k)] = xs[r.randrange(k)]
         return {'op': 'join', 'xs': xs, 'cls': A if r.random() < self.p_astr else S, 'd': self.slot()}
@@ -589,7 +605,7 @@ class Gen:
         if self.oracle.prop == 'C09' and r.random() < 0.08:
             old = ''
         op = {'op': 'replace', 'r': s, 'd': self.slot(), 'ip': self.ip(), 'old': old,
-              'new': self.operand(world, s if r.random() < 0.3 else None, maxlen=6)}
+              'new': self.operand(world, s if r.random() < 0.3 else None, maxlen=6, esc=self.oracle.prop in ('C11', 'C09', 'C13', 'C08'))}
         if r.random() < 0.4:
             op['count'] = r.choice([-1, 0, 1, 2, 9])
         return op
